@@ -21,6 +21,11 @@ fn root_operation_type_definition(p: &mut Parser) {
     operation::operation_type(p);
     if let Some(T![:]) = p.peek() {
         p.bump(S![:]);
+        // `ty::named_type` is silent when no Name follows. A `[` is already reported by the
+        // caller ("expected R_CURLY, got ["); anything else would otherwise go unreported.
+        if !matches!(p.peek(), Some(TokenKind::Name | T!['['])) {
+            p.err("expected a Named Type");
+        }
         ty::named_type(p);
     } else {
         p.err("expected a Name Type");
@@ -59,6 +64,8 @@ pub(crate) fn schema_definition(p: &mut Parser) {
         }
 
         p.expect(T!['}'], S!['}']);
+    } else {
+        p.err("expected Root Operation Type Definitions");
     }
 }
 
@@ -82,10 +89,15 @@ pub(crate) fn schema_extension(p: &mut Parser) {
     if let Some(T!['{']) = p.peek() {
         p.bump(S!['{']);
 
+        let mut has_root_operation_types = false;
         p.peek_while_kind(TokenKind::Name, |p| {
             meets_requirements = true;
+            has_root_operation_types = true;
             root_operation_type_definition(p);
         });
+        if meets_requirements && !has_root_operation_types {
+            p.err("expected Root Operation Type Definition");
+        }
 
         p.expect(T!['}'], S!['}']);
     }
